@@ -70,7 +70,7 @@ func runCheck(P *Program, verif, prop, tier string, seed int, verbose bool, t0 t
 	if tier == "thorough" {
 		timeout = 120 * time.Second
 	}
-	dischargeAll(obls, tmp, timeout, tier, 10)
+	dischargeAll(obls, tmp, timeout, tier, 7)
 
 	// verdicts
 	replayDir := filepath.Join(verif, "replays", prop)
